@@ -52,7 +52,7 @@ impl Gen {
         }
         // clear_pending_commit is for commits whose publication failed: only unpublished ones are cleared, and they are never delivered
         if k < 24 { if let Some((m, ev)) = pending.iter().find(|(_, e)| !self.delivered.contains(e)).cloned() { self.evs.remove(&ev); return format!("PR CLEAR {m}"); } }
-        if k < 26 && self.left.is_none() && self.n > 3 && m != 0 && !(self.twin && m >= 2) && self.r.chance(1, 4) {
+        if k < 26 && self.left.is_none() && self.n > 3 && m != 0 && self.r.chance(1, 4) {
             let ev = self.next_ev; self.next_ev += 1; self.left = Some(m);
             self.evs.insert(ev, EvMeta { kind: "prop", author: m, epoch_hint: self.client_epoch[m] });
             return format!("PR LEAVE {m} {ev} {}", self.ts());
@@ -241,8 +241,19 @@ fn run_world<S: MdkStorageProvider, F: Fn(usize) -> S>(run: &mut Run, lines_in: 
             g.evs.insert(e_app, EvMeta { kind: "app", author: 0, epoch_hint: 2 });
             g.removed = true;
             let victim = 2 + g.r.below(2);
-            script.push(format!("PR COMMIT 0 rv{victim} {e_rm} 100"));
-            for c in [0usize, 1, 2, 3] { script.push(format!("PR DELIVER {c} {e_rm}")); }
+            if (h / 5) % 2 == 1 {
+                // variant: ONE device of the two-device user leaves; the admin auto-commits the proposal; only that device goes
+                let aev = 1000 + e_rm * 8;
+                g.evs.insert(e_rm, EvMeta { kind: "prop", author: victim as usize, epoch_hint: 1 });
+                g.left = Some(victim as usize);
+                script.push(format!("PR LEAVE {victim} {e_rm} 100"));
+                script.push(format!("PR DELIVER 0 {e_rm}"));
+                script.push(format!("PR DELIVER 0 {aev}"));
+                for c in [1usize, 2, 3] { script.push(format!("PR DELIVER {c} {e_rm}")); script.push(format!("PR DELIVER {c} {aev}")); }
+            } else {
+                script.push(format!("PR COMMIT 0 rv{victim} {e_rm} 100"));
+                for c in [0usize, 1, 2, 3] { script.push(format!("PR DELIVER {c} {e_rm}")); }
+            }
             g.delivered.insert(e_rm);
             script.push(format!("PR SEND 0 {e_app} 101 {msg}"));
             for c in [3usize, 2, 1] { script.push(format!("PR DELIVER {c} {e_app}")); }
@@ -324,6 +335,10 @@ fn step<S: MdkStorageProvider>(w: &mut World<S>, l: &str, truth: &mut Truth, run
                 let recomputed = { let mut e = sm.event.clone(); e.id = None; e.id() };
                 let own = sm.pubkey == w.clients[m].keys.public_key();
                 // (a sender that forged the author of its own rumor keeps its own copy under that name: self-inflicted)
+                // the id carried INSIDE the stored event is the message's id too (a sender-chosen id must not survive in it)
+                if !own && truth_author != Some(m) && sm.event.id.is_some() && sm.event.id != Some(sm.id) {
+                    run.oracle_fail("C04", "", format!("[{backend}] member {m} stores message {} whose embedded event carries another id ({:?})", sm.id, sm.event.id), seqtxt());
+                }
                 if !own && truth_author != Some(m) && (recomputed != sm.id || truth_author.map(|a| w.clients[a].keys.public_key() != sm.pubkey).unwrap_or(true)) {
                     run.oracle_fail("C04", "", format!("[{backend}] member {m} stores message {} whose id is not the hash of its fields or whose author is not its MLS-authenticated sender", sm.id), seqtxt());
                 }
@@ -368,6 +383,12 @@ fn step<S: MdkStorageProvider>(w: &mut World<S>, l: &str, truth: &mut Truth, run
             let changed = before.as_ref().map(|b| strip(&fp) != *b).unwrap_or(false) || w.clients[m].cb.0.lock().unwrap().len() > rb_before;
             if changed && w.events.get(&ev).map(|i| i.kind == "commit" && i.author == m && st != ev + 1).unwrap_or(false) { truth.own_echo_other_pending = true; }
         }
+    }
+    // C03 / C08: a client whose own leaf is gone (it processed its removal) does not keep the group Active
+    if fp.contains(" act=1 ") && m < w.clients.len() {
+        if let Ok(Some(g)) = w.clients[m].mdk.load_mls_group(&w.gid) { if !g.is_active() {
+            for p in ["C03", "C08"] { run.oracle_fail(p, "", format!("[{backend}] after `{l}` member {m}'s MLS group is no longer active (its leaf was removed) but its stored group is still Active"), seq.join(" || ") + " || " + &line); }
+        } }
     }
     // C08: after every operation the stored record of an active group shows the epoch of the MLS state
     if fp.contains(" act=1 ") {
